@@ -78,9 +78,14 @@ def run_scenario(ctx, rng, plans, fan, nev, spied, instrumented, check=None, ext
     try:
       if extras and extras.get('pubs'):
         ao.subscribe(Event(signal='C04_PUB'), queue_type=extras['sub_kind'])
+        if extras.get('sub_again') == 'before':
+          ao.subscribe(Event(signal='C04_PUB'), queue_type=extras['sub_kind'])     # the same subscription made twice
       ao.start_at(st)
       if extras and extras.get('pubs'):
         s.quiesce()      # the subscription made before start_at is performed by the object's own thread
+        if extras.get('sub_again') == 'after':
+          ao.subscribe(Event(signal='C04_PUB'), queue_type=extras['sub_kind'])     # ... or once more on the running object
+          s.quiesce()
       ld = ao.locking_deque
       # abstract global state for lasso (livelock cycle) detection: everything that records progress
       fab = ao.fabric
